@@ -399,3 +399,48 @@ def discriminant_tables(F, rep, core):
                           "%s::%s maps %d to %s::%s, whose discriminant (what the writer emits) is %s: a value written with one tag is decoded as another type" % (en, it["name"], tag, en, vs[0], want),
                           "%s::%s (mech_core.lib)" % (en, it["name"]), sample={"enum": en, "variant": vs[0], "tag": tag})
     rep.floor("C06-R15", "tag decoder arms compared with discriminants", n, 50)
+
+
+def panicking_kind_ladders(F, rep, core):
+    """C06-R16: a kind ladder over Value::Matrix* / Value::<scalar> whose catch-all panics covers every element kind the Value enum has"""
+    rep.rule("C06-R16", "kind ladders with a panicking catch-all are total: a `match` over Value::Matrix<K> (or Value::<K>) patterns whose wildcard arm panics names every element kind K "
+                        "for which the Value enum has that variant (a kind the ladder forgets aborts compile()/run_program for programs the interpreter evaluates)")
+    value = [it for it in core if it["k"] == "enum" and it["name"] == "Value"]
+    if not rep.check(len(value) == 1, "C06-R16", "anchor:enum-Value", "enum Value not found"):
+        return
+    names = {v["name"] for v in value[0]["variants"]}
+    ELEM = {"U8", "U16", "U32", "U64", "U128", "I8", "I16", "I32", "I64", "I128", "F32", "F64", "R64", "C64", "Bool", "String"}
+    ref_m = {k for k in ELEM if "Matrix" + k in names}
+    ref_s = {k for k in ELEM if k in names}
+    rep.floor("C06-R16", "element kinds with a Value::Matrix variant", len(ref_m), 14)
+    n = n_panic = 0
+    for c in ("mech_core.lib", "mech_interpreter.lib"):
+        for it in F.syn(c):
+            if it["k"] not in ("fn", "method") or not it.get("body"):
+                continue
+            for m in find(it["body"], "match"):
+                mk, sk, wild = set(), set(), None
+                for a in m[2]:
+                    txt = render_pat(a[0])
+                    mk |= set(re.findall(r"Value::Matrix(\w+)\(", txt))
+                    sk |= set(re.findall(r"Value::(\w+)\(", txt)) & ELEM
+                    if a[0][0] == "pwild":
+                        wild = a[2]
+                if wild is None:
+                    continue
+                for label, ks, ref in (("matrix", mk & ELEM, ref_m), ("scalar", sk, ref_s)):
+                    if len(ks) < 8:
+                        continue
+                    n += 1
+                    panics = any(x[0] == "macro" and re.search(r"(^|::)(panic|unreachable|todo|unimplemented|panic_fmt)$", x[1]) for x in walk(wild)) or \
+                        any(x[0] == "call" and re.search(r"panic", path_of(x[1]) or "") for x in walk(wild))
+                    if not panics:
+                        continue
+                    n_panic += 1
+                    miss = sorted(ref - ks)
+                    fn = "%s::%s" % (it.get("self") or it.get("mod") or "", it["name"])
+                    rep.check(not miss, "C06-R16", "%s:%s" % (fn, label) if not miss else "%s:%s:missing:%s" % (fn, label, ",".join(miss)),
+                              "%s matches %d %s kinds and panics for anything else, but has no arm for %s: a value of that kind reaching it aborts the process instead of computing what the interpreter computed" % (
+                                  fn, len(ks), label, miss), "%s (%s)" % (fn, c), sample={"fn": fn, "kinds": sorted(ks)})
+    rep.floor("C06-R16", "kind ladders with a wildcard arm examined", n, 20)
+    rep.floor("C06-R16", "kind ladders whose wildcard panics", n_panic, 1)
